@@ -236,7 +236,12 @@ def check_writer_roundtrip(ctx, index):
         writer = rowio.XlsxRowWriter(path)
         accepted = []
         try:
-            for row in table:
+            if limit_case is None and index % 2 == 0:
+                # the whole table at once
+                writer.write_rows(table)
+                accepted = list(table)
+                ctx.count("writer.roundtrips-through-write_rows")
+            for row in (table if not accepted else []):
                 try:
                     writer.write_row(row)
                     accepted.append(row)
